@@ -29,6 +29,19 @@ timeouts: GATT 30 s):
      DataPacketQueue per-connection state and queued packets;
   4. behavioural residue: after a link-level teardown the devices reconnect and the same procedure, fault-free,
      succeeds; where a transport still exists a following HCI command completes.
+
+Not judged (counted in the evidence instead): calls / HCI commands that were *started after* the host's transport
+had died (they were not waiting on it when it was lost); registry entries of a dead connection that are
+semantically empty (unlocked semaphore, `None` confirmation, empty channel dict); calls that end by a built-in
+timeout rather than by the cut (an error is an error).
+
+Signatures are {proc, fault, what}.  Two pseudo-procedures `idle_le` / `idle_classic` (a connection that has
+carried one PDU each way and is otherwise idle) are swept first; a (fault, what) that already fails there is
+reported under the idle procedure only and not again under each of the other procedures of that transport.
+
+Thorough tier = the same sweep x {no hold, one of the six message channels (h2c/c2h/link x 2 devices) held back
+from the injection point until everything else is quiescent}: every order-preserving single-channel delay
+around the fault (deviation bound 1).
 """
 from __future__ import annotations
 
@@ -160,6 +173,7 @@ def lose_transport(w, i, running=None):
     w.hosts[i].hci_sink = None
     w.controllers[i].host = None
     w.lost.add(i)
+    w.in_flight_at_loss[i] = w.hosts[i].pending_command
     try:
         w.hosts[i].on_transport_lost()
     except Exception as e:  # noqa  -- judged by the caller
@@ -258,6 +272,7 @@ def run_case(proc_name, fault=None, at=0, hold=None):
     try:
         w.lost = set()
         w.transport_lost_raised = []
+        w.in_flight_at_loss = {}
         w.power_on()
         proc.services(w)
         conns = connect(w, classic)
@@ -338,10 +353,11 @@ def run_case(proc_name, fault=None, at=0, hold=None):
         # ---- (1) every awaited call is done ----------------------------------------------------------
         stuck = tr.pending()
         for c in stuck:
-            tag = 'awaitable_pending'
-            if c['after_fault'] and fault == 'local_transport_loss':
-                tag = 'awaitable_pending_started_after_transport_loss'
-            bad(f'{tag}: {c["name"]}', f'{c["name"]} never completed (still pending {HORIZON:.0f} virtual seconds after the fault)')
+            if c['after_fault'] and fault == 'local_transport_loss' and not c['name'].startswith('Connection.disconnect ['):
+                # a call made after the transport had died was not waiting on it when it was lost: counted, not judged
+                notes['call_started_after_transport_loss'] = notes.get('call_started_after_transport_loss', 0) + 1
+                continue
+            bad(f'awaitable_pending: {c["name"]}', f'{c["name"]} never completed (still pending {HORIZON:.0f} virtual seconds after the fault)')
 
         # ---- (2) connection tables ---------------------------------------------------------------------
         for i in (0, 1):
@@ -383,6 +399,10 @@ def run_case(proc_name, fault=None, at=0, hold=None):
             if i in w.lost and any(v[0].startswith('awaitable_pending') for v in viol):
                 continue
             hst = w.hosts[i]
+            if i in w.lost and hst.pending_command is not None and hst.pending_command is not w.in_flight_at_loss.get(i):
+                # a command handed to the host AFTER its transport died was not "waiting on that transport" when it was lost
+                notes['command_issued_after_transport_loss'] = 1
+                continue
             if hst.pending_command is not None or hst.pending_response is not None or hst.command_semaphore.locked():
                 side = 'waiting side' if i == L else 'other side'
                 bad(f'residue: host.pending_command ({side})', f'{side}: an HCI command is still pending / the command semaphore is still held')
@@ -487,6 +507,8 @@ def w_item(arg):
         st.count('calls_finished_only_by_timeout', r['notes'].get('timeout_finished', 0))
         st.count('reconnect_and_rerun', 1 if r['notes'].get('rerun') else 0)
         st.count('empty_entries_left_for_dead_connections', r['notes'].get('soft', 0))
+        st.count('calls_started_after_transport_loss_left_pending', r['notes'].get('call_started_after_transport_loss', 0))
+        st.count('commands_issued_after_transport_loss_left_pending', r['notes'].get('command_issued_after_transport_loss', 0))
         if r['notes'].get('pending_before_disconnect'):
             st.count('peer_transport_loss_calls_waiting_until_local_disconnect', 1)
         for what, msg in r['viol']:
@@ -546,7 +568,7 @@ def run(ctx: core.Context) -> int:
             'a violation that already occurs on an idle connection of the same transport is reported under idle_le / idle_classic only',
             'fault schedules: stock order' + ('' if quick else ' + one held channel'),
         ],
-        extra={'horizon_virtual_s': HORIZON, 'faults': FAULTS, 'procedures': {p: size[p] for p in procs}},
+        extra={'horizon_virtual_s': HORIZON, 'fault_alphabet': FAULTS, 'held_channels': [list(h) if h else None for h in holds], 'messages_per_procedure': {p: size[p] for p in procs}},
     )
 
 
